@@ -14,6 +14,19 @@ def peersync(mode, nq, nt, pq=4, pt=12, extra=None):
             "n": {"quick": nq, "thorough": nt}, "procs": {"quick": pq, "thorough": pt}}
 
 CHECKS = {
+    "C15": {
+        "trace_module": "Trace_PeerSync",
+        "mc": [MC_PEERSYNC],
+        "drivers": [
+            {"name": "sampling", "driver": "sampling", "args": [], "trace_module": "Trace_Sampling",
+             "n": {"quick": 30, "thorough": 400}, "procs": {"quick": 2, "thorough": 8}},
+            peersync("honest", 60, 300, 2, 6),
+        ],
+        "assumptions": COMMON_ASSUMPTIONS + [
+            "256-bit difficulties are judged through their ranks (exact for a predicate that uses only <, <=, =)",
+            "required sample counts come from spec/SamplingTable.tla (exact arithmetic, rounded down, 5%+1 tolerance for collisions of the sampler's 1e-9 quantisation); the FlyClient density of the samples is not judged",
+        ],
+    },
     "C01": {
         "trace_module": "Trace_PeerSync",
         "mc": [MC_PEERSYNC],
